@@ -123,6 +123,10 @@ end
 def dupInnerLabels (t : T) : Bool :=
   hasDup (((if t.kids.length == 1 then [] else [t.name]) ++ innerLabelsL t.kids).filter (· != "")) && t.uniqueTips
 
+/-- the region of F79 as widened in round 6: `NewNodeIndex` refuses because two named nodes of ANY kind share a
+    label (two inner nodes, or an inner node and a tip) while the tips are pairwise different -/
+def dupLabels (t : T) : Bool := hasDup (t.nodeNames.filter (· != "")) && t.uniqueTips
+
 /-- "a group with exactly one existing member on a tree with unique tip names must be accepted": the groups
     as such are acceptable — the insertion procedure itself (without the node-index precondition of the
     code) goes through -/
